@@ -109,6 +109,11 @@ func genMimeScan(r *Rng, n int, w io.Writer, st *Stats) {
 		bnd := Pick(r, bnds)
 		var data []byte
 		switch c := r.Intn(10); {
+		case r.Chance(1, 60): // boundary length / number of parts on the marks of d_mimedeep.go
+			sp := c12ScanShape(r)
+			t := c12ShapeTree(sp)
+			data, bnd = t.renderBody("\r\n"), t.boundary
+			st.Inc("mime-scan.shape." + sp.kind)
 		case c < 6:
 			data = mimeGenScanData(r, bnd)
 			st.Inc("mime-scan.soup")
@@ -132,9 +137,13 @@ func genMimeScan(r *Rng, n int, w io.Writer, st *Stats) {
 
 func genMimeSplit(r *Rng, n int, w io.Writer, st *Stats) {
 	r = r.Fork() // NewRng(seed+1) is NewRng(seed) advanced by one draw: decorrelate the seeds
+	dir := c12SplitDirected()
 	for i := 0; i < n; i++ {
 		var data []byte
-		if r.Chance(1, 2) {
+		if i < len(dir) {
+			data = dir[i]
+			st.Inc("mime-split.shape-directed")
+		} else if r.Chance(1, 2) {
 			k := Pick(r, []int{0, 1, 2, 3, 5, 8, 13})
 			for j := 0; j < k; j++ {
 				data = append(data, Pick(r, []string{"\r\n", "\n", "\r", "a: b", " ", "x", "\r\r\n", ":"})...)
@@ -443,6 +452,16 @@ func mimeMutate(r *Rng, msg []byte) []byte {
 
 // mimeGenMessage: one message of a random class (built / mutated / garbage).
 func mimeGenMessage(r *Rng, st *Stats, pfx string) []byte {
+	if r.Chance(1, 100) { // size / depth boundaries (d_mimedeep.go)
+		s := c12RandomShape(r)
+		_, m := c12ShapeMessage(s)
+		st.Inc(pfx + ".shape." + s.kind)
+		if r.Chance(1, 4) {
+			st.Inc(pfx + ".shape-mutated")
+			return mimeMutate(r, m)
+		}
+		return m
+	}
 	switch c := r.Intn(10); {
 	case c < 4:
 		_, _, m := mimeGenBuilt(r)
@@ -470,8 +489,13 @@ type mimeEnvEntry struct {
 // mimeCollectEnv records, for every header block the section machinery looks at, what the real
 // NewHeader / ContentType answer (the abstract HdrEnv of the Lean model), via the public API.
 func mimeCollectEnv(sec *rfc822.Section, tbl map[string]mimeEnvEntry, visit func(*rfc822.Section), depth int) {
-	if depth > 200 {
+	if depth > 5000 {
 		return
+	}
+	if depth == 0 {
+		// first by our own splitting (independent of how far Section.Children() follows the nesting),
+		// then through Children() as the code sees it
+		c12CollectEnvIndep(sec.Literal(), tbl, visit, 0)
 	}
 	raw := sec.Literal()
 	h, _ := rfc822.Split(raw)
@@ -557,8 +581,14 @@ func implMimeWalk(args []string) (out string) {
 func genMimeWalk(r *Rng, n int, w io.Writer, st *Stats) {
 	r = r.Fork() // NewRng(seed+1) is NewRng(seed) advanced by one draw: decorrelate the seeds
 	mimeQuietLogs()
+	dir := c12DirectedMessages(r, n, st, "mime-walk")
 	for i := 0; i < n; i++ {
-		msg := mimeGenMessage(r, st, "mime-walk")
+		var msg []byte
+		if i < len(dir) {
+			msg = dir[i]
+		} else {
+			msg = mimeGenMessage(r, st, "mime-walk")
+		}
 		env, _ := mimeSafeEnv(msg)
 		fmt.Fprintf(w, "mime-walk %s %s\n", mimeHex(msg), env)
 	}
